@@ -86,9 +86,21 @@ Inductive enc_envelope : val -> list byte -> Prop :=
                                    ("in_reply_to"%string, in_reply_to); ("message_id"%string, message_id)])
                  ([40] ++ w1 ++ SPb ++ w2 ++ SPb ++ w3 ++ SPb ++ w4 ++ SPb ++ w5 ++ SPb ++ w6 ++ SPb ++ w7 ++ SPb ++ w8 ++ SPb ++ w9 ++ SPb ++ w10 ++ [41]).
 
+(* ---------------------------------------------------------------- flags and dates in FETCH (RFC 3501 section 9: flag, flag-fetch, date-time) *)
+(* flag = system flag / flag-keyword / flag-extension: an atom, or "\" followed by an atom; the value is the text as sent *)
+Inductive enc_flag : list byte -> list byte -> Prop :=
+| flag_keyword a : a <> [] -> forallb rfc_ATOM_CHAR a = true -> enc_flag a a
+| flag_backslash a : a <> [] -> forallb rfc_ATOM_CHAR a = true -> enc_flag ([92] ++ a) ([92] ++ a).
+Inductive enc_flags_more : list val -> list byte -> Prop :=
+| flags_more_nil : enc_flags_more [] []
+| flags_more_cons f w l ws : enc_flag f w -> enc_flags_more l ws -> enc_flags_more (VBytes f :: l) (SPb ++ w ++ ws).
+Inductive enc_flag_list : val -> list byte -> Prop :=
+| flag_list_empty : enc_flag_list (VList []) [40; 41]
+| flag_list_some f w l ws : enc_flag f w -> enc_flags_more l ws -> enc_flag_list (VList (VBytes f :: l)) ([40] ++ w ++ ws ++ [41]).
+
 (* ---------------------------------------------------------------- RFC 3501 7.4.2: FETCH data items
-   msg-att-static / msg-att-dynamic as far as the round-trip theorems reach today (BODY, BODYSTRUCTURE, BODY[...],
-   FLAGS and X-GM-LABELS are covered by the differential checks only) *)
+   msg-att-static / msg-att-dynamic as far as the round-trip theorems reach today (BODY, BODYSTRUCTURE, BODY[...]
+   and X-GM-LABELS are covered by the differential checks only) *)
 Inductive enc_msg_att : val -> list byte -> Prop :=
 | att_envelope k e w : kw "ENVELOPE " k -> enc_envelope e w -> enc_msg_att (VCon "AttributeValue::Envelope" [e]) (k ++ w)
 | att_uid k n w : kw "UID " k -> enc_number 32 n w -> enc_msg_att (VCon "AttributeValue::Uid" [VNum n]) (k ++ w)
@@ -99,7 +111,10 @@ Inductive enc_msg_att : val -> list byte -> Prop :=
     enc_msg_att (VCon "AttributeValue::Rfc822Header" [v]) (k ++ sp ++ w)
 | att_modseq k n w : kw "MODSEQ " k -> enc_number 64 n w ->                                   (* RFC 4551 *)
     enc_msg_att (VCon "AttributeValue::ModSeq" [VNum n]) (k ++ [40] ++ w ++ [41])
-| att_msgid k n w : kw "X-GM-MSGID " k -> enc_number 64 n w -> enc_msg_att (VCon "AttributeValue::GmailMsgId" [VNum n]) (k ++ w).
+| att_msgid k n w : kw "X-GM-MSGID " k -> enc_number 64 n w -> enc_msg_att (VCon "AttributeValue::GmailMsgId" [VNum n]) (k ++ w)
+| att_flags k v w : kw "FLAGS " k -> enc_flag_list v w -> enc_msg_att (VCon "AttributeValue::Flags" [v]) (k ++ w)
+| att_date k s w : kw "INTERNALDATE " k -> enc_string s w -> utf8_valid s = true ->     (* date-time is a quoted string; the text is returned as sent *)
+    enc_msg_att (VCon "AttributeValue::InternalDate" [VBytes s]) (k ++ w).
 
 Inductive enc_att_more : list val -> list byte -> Prop :=
 | att_more_nil : enc_att_more [] []
@@ -116,3 +131,107 @@ Inductive enc_fetch : val -> list byte -> Prop :=
     enc_number 32 n wn -> kw " FETCH " k -> enc_msg_att a wa -> enc_att_more l wl -> enc_spaces sp ->
     enc_fetch (VCon "Response::Fetch" [VNum n; VList (a :: l)])
               (bs "* " ++ wn ++ k ++ [40] ++ wa ++ wl ++ [41] ++ sp ++ [13; 10]).
+
+(* ---------------------------------------------------------------- more untagged data (RFC 3501 7.3.1, 7.4.1; RFC 7162) *)
+(* sequence-set for known-uids: seq-number / seq-range separated by ","; a range written high:low is the same set *)
+Definition range_val (a b : N) : val :=
+  if a <=? b then VCon "RangeInclusive" [VNum a; VNum b] else VCon "RangeInclusive" [VNum b; VNum a].
+Inductive enc_seq_item : val -> list byte -> Prop :=
+| seq_single n w : enc_number 32 n w -> enc_seq_item (VCon "RangeInclusive" [VNum n; VNum n]) w
+| seq_range a b wa wb : enc_number 32 a wa -> enc_number 32 b wb -> enc_seq_item (range_val a b) (wa ++ [58] ++ wb).
+Inductive enc_seq_more : list val -> list byte -> Prop :=
+| seq_more_nil : enc_seq_more [] []
+| seq_more_cons v l w ws : enc_seq_item v w -> enc_seq_more l ws -> enc_seq_more (v :: l) ([44] ++ w ++ ws).
+
+Inductive enc_ws1 : list byte -> Prop :=            (* nom space1: one or more SP / HTAB (servers are tolerated here) *)
+| ws1_intro w : w <> [] -> forallb (fun b => (b =? 32) || (b =? 9)) w = true -> enc_ws1 w.
+
+(* the body of an untagged data response (between "* " and the trailing spaces + CRLF) *)
+Inductive enc_untagged : val -> list byte -> Prop :=
+| unt_exists n w k : enc_number 32 n w -> kw " EXISTS" k -> enc_untagged (VCon "Response::MailboxData" [VCon "MailboxDatum::Exists" [VNum n]]) (w ++ k)
+| unt_recent n w k : enc_number 32 n w -> kw " RECENT" k -> enc_untagged (VCon "Response::MailboxData" [VCon "MailboxDatum::Recent" [VNum n]]) (w ++ k)
+| unt_expunge n w k : enc_number 32 n w -> kw " EXPUNGE" k -> enc_untagged (VCon "Response::Expunge" [VNum n]) (w ++ k)
+| unt_vanished k earlier ke ws v l w wl : kw "VANISHED" k ->
+    (earlier = true /\ (exists s e, ke = s ++ e /\ enc_ws1 s /\ kw "(EARLIER)" e)) \/ (earlier = false /\ ke = []) ->
+    enc_ws1 ws -> enc_seq_item v w -> enc_seq_more l wl ->
+    enc_untagged (VRec "Response::Vanished" [("earlier"%string, VBool earlier); ("uids"%string, VList (v :: l))]) (k ++ ke ++ ws ++ w ++ wl).
+
+Inductive enc_untagged_response : val -> list byte -> Prop :=
+| enc_untagged_intro v body sp : enc_untagged v body -> enc_spaces sp -> enc_untagged_response v (bs "* " ++ body ++ sp ++ [13; 10]).
+
+
+(* ---------------------------------------------------------------- RFC 2087: QUOTA *)
+(* quota_resource = atom SP number SP number: resource name, current usage, limit -- in this order *)
+Inductive enc_quota_name : val -> list byte -> Prop :=
+| qn_storage w : kw "STORAGE" w -> enc_quota_name (VCon "QuotaResourceName::Storage" []) w
+| qn_message w : kw "MESSAGE" w -> enc_quota_name (VCon "QuotaResourceName::Message" []) w
+| qn_atom a : a <> [] -> forallb rfc_ATOM_CHAR a = true -> eq_nocase a (bs "STORAGE") = false -> eq_nocase a (bs "MESSAGE") = false ->
+    enc_quota_name (VCon "QuotaResourceName::Atom" [VBytes a]) a.
+Inductive enc_quota_resource : val -> list byte -> Prop :=
+| quota_resource_intro name wn s1 usage wu s2 limit wl :
+    enc_quota_name name wn -> enc_ws1 s1 -> enc_number 64 usage wu -> enc_ws1 s2 -> enc_number 64 limit wl ->
+    enc_quota_resource (VRec "QuotaResource" [("name"%string, name); ("usage"%string, VNum usage); ("limit"%string, VNum limit)])
+                       (wn ++ s1 ++ wu ++ s2 ++ wl).
+Inductive enc_quota_more : list val -> list byte -> Prop :=
+| quota_more_nil : enc_quota_more [] []
+| quota_more_cons r l s w ws : enc_ws1 s -> enc_quota_resource r w -> enc_quota_more l ws -> enc_quota_more (r :: l) (s ++ w ++ ws).
+Inductive enc_quota_list : val -> list byte -> Prop :=
+| quota_list_empty : enc_quota_list (VList []) [40; 41]
+| quota_list_some r w l ws : enc_quota_resource r w -> enc_quota_more l ws -> enc_quota_list (VList (r :: l)) ([40] ++ w ++ ws ++ [41]).
+Inductive enc_quota : val -> list byte -> Prop :=
+| quota_intro k s1 root wr s2 res wl : kw "QUOTA" k -> enc_ws1 s1 -> enc_astring root wr -> utf8_valid root = true -> enc_ws1 s2 -> enc_quota_list res wl ->
+    enc_quota (VCon "Response::Quota" [VRec "Quota" [("root_name"%string, VBytes root); ("resources"%string, res)]]) (k ++ s1 ++ wr ++ s2 ++ wl).
+
+(* every untagged data response the round-trip theorem reaches, besides FETCH *)
+Inductive enc_data : val -> list byte -> Prop :=
+| data_basic v body : enc_untagged v body -> enc_data v body
+| data_quota v body : enc_quota v body -> enc_data v body.
+Inductive enc_data_response : val -> list byte -> Prop :=
+| enc_data_intro v body sp : enc_data v body -> enc_spaces sp -> enc_data_response v (bs "* " ++ body ++ sp ++ [13; 10]).
+
+(* ---------------------------------------------------------------- RFC 3501 7.1: status responses *)
+Inductive enc_status : val -> list byte -> Prop :=
+| st_ok w : kw "OK" w -> enc_status (VCon "Status::Ok" []) w
+| st_no w : kw "NO" w -> enc_status (VCon "Status::No" []) w
+| st_bad w : kw "BAD" w -> enc_status (VCon "Status::Bad" []) w
+| st_preauth w : kw "PREAUTH" w -> enc_status (VCon "Status::PreAuth" []) w
+| st_bye w : kw "BYE" w -> enc_status (VCon "Status::Bye" []) w.
+
+(* resp-text-code (the ones without lists; RFC 3501, 4315, 4551) *)
+Inductive enc_code : val -> list byte -> Prop :=
+| code_alert w : kw "ALERT" w -> enc_code (VCon "ResponseCode::Alert" []) w
+| code_parse w : kw "PARSE" w -> enc_code (VCon "ResponseCode::Parse" []) w
+| code_read_only w : kw "READ-ONLY" w -> enc_code (VCon "ResponseCode::ReadOnly" []) w
+| code_read_write w : kw "READ-WRITE" w -> enc_code (VCon "ResponseCode::ReadWrite" []) w
+| code_try_create w : kw "TRYCREATE" w -> enc_code (VCon "ResponseCode::TryCreate" []) w
+| code_uid_validity k n w : kw "UIDVALIDITY " k -> enc_number 32 n w -> enc_code (VCon "ResponseCode::UidValidity" [VNum n]) (k ++ w)
+| code_uid_next k n w : kw "UIDNEXT " k -> enc_number 32 n w -> enc_code (VCon "ResponseCode::UidNext" [VNum n]) (k ++ w)
+| code_unseen k n w : kw "UNSEEN " k -> enc_number 32 n w -> enc_code (VCon "ResponseCode::Unseen" [VNum n]) (k ++ w)
+| code_highest_mod_seq k n w : kw "HIGHESTMODSEQ " k -> enc_number 64 n w -> enc_code (VCon "ResponseCode::HighestModSeq" [VNum n]) (k ++ w).
+
+(* resp-text = ["[" resp-text-code "]" SP] text; text = 1*TEXT-CHAR (a text that is not a code does not begin with "[");
+   (code, information) *)
+Inductive enc_resp_text : val -> val -> list byte -> Prop :=
+| rt_plain c t : forallb rfc_TEXT_CHAR (c :: t) = true -> c <> 91 -> enc_resp_text VNone (VSome (VBytes (c :: t))) (c :: t)
+| rt_code_only code wc : enc_code code wc -> enc_resp_text (VSome code) VNone ([91] ++ wc ++ [93])
+| rt_code_text code wc t : enc_code code wc -> forallb rfc_TEXT_CHAR t = true ->
+    enc_resp_text (VSome code) (VSome (VBytes t)) ([91] ++ wc ++ [93] ++ [32] ++ t).
+
+(* resp-cond-state / resp-cond-bye / greeting forms, untagged *)
+Inductive enc_status_body : val -> list byte -> Prop :=
+| sb_bare st ws : enc_status st ws ->
+    enc_status_body (VRec "Response::Data" [("status"%string, st); ("code"%string, VNone); ("information"%string, VNone)]) ws
+| sb_text st ws code info wt : enc_status st ws -> enc_resp_text code info wt ->
+    enc_status_body (VRec "Response::Data" [("status"%string, st); ("code"%string, code); ("information"%string, info)]) (ws ++ [32] ++ wt).
+Inductive enc_status_response : val -> list byte -> Prop :=
+| enc_status_intro v body : enc_status_body v body -> enc_status_response v (bs "* " ++ body ++ [13; 10]).
+
+(* response-tagged = tag SP resp-cond-state CRLF; tag = 1*<any ASTRING-CHAR except "+"> *)
+Definition rfc_TAG_CHAR (b : byte) : bool := rfc_ASTRING_CHAR b && negb (b =? 43).
+Inductive enc_tagged_response : val -> list byte -> Prop :=
+| enc_tagged_bare tag st ws : tag <> [] -> forallb rfc_TAG_CHAR tag = true -> enc_status st ws ->
+    enc_tagged_response (VRec "Response::Done" [("tag"%string, VCon "RequestId" [VBytes tag]); ("status"%string, st); ("code"%string, VNone); ("information"%string, VNone)])
+                        (tag ++ [32] ++ ws ++ [13; 10])
+| enc_tagged_text tag st ws code info wt : tag <> [] -> forallb rfc_TAG_CHAR tag = true -> enc_status st ws -> enc_resp_text code info wt ->
+    enc_tagged_response (VRec "Response::Done" [("tag"%string, VCon "RequestId" [VBytes tag]); ("status"%string, st); ("code"%string, code); ("information"%string, info)])
+                        (tag ++ [32] ++ ws ++ [32] ++ wt ++ [13; 10]).
